@@ -1612,3 +1612,264 @@ Qed.
      Proof. intros p1 p2 W1 W2. split; [apply merge_wf; auto|intros x y; apply merge_refines; auto]. Qed.
    after which combined_uniform, pick_alphabet_reps, compact_eval and compile_successors_strict
    apply with [merge_spec_holds] for their first premise. *)
+
+Lemma nth_error_ext_len {A} (l l' : list A) : length l = length l' ->
+  (forall k, nth_error l k = nth_error l' k) -> l = l'.
+Proof.
+  revert l'. induction l as [|x t IH]; intros [|y t'] Hl H; simpl in Hl; try discriminate; auto.
+  pose proof (H 0) as H0. simpl in H0. inv H0. f_equal. apply IH; [lia|].
+  intros k. apply (H (S k)).
+Qed.
+
+Lemma filter_map_comm {A B} (f : A -> B) (p : B -> bool) l :
+  filter p (map f l) = map f (filter (fun x => p (f x)) l).
+Proof. induction l as [|x t IH]; simpl; auto. destruct (p (f x)); simpl; rewrite IH; reflexivity. Qed.
+
+Lemma Forall2_weaken {A B} (P Q : A -> B -> Prop) l l' :
+  (forall x y, P x y -> Q x y) -> Forall2 P l l' -> Forall2 Q l l'.
+Proof. intros H F. induction F; constructor; auto. Qed.
+
+(* ------------------------------------------------------------------ 9. accessors of Automaton / State *)
+
+Lemma wf_state_at a i s : aut_wf a -> nth_error (astates a) i = Some s ->
+  state_wf (num_states a) i s /\ i < num_states a /\ a_state a i = s.
+Proof.
+  intros Hwf Hn. pose proof Hwf as [Hl [_ [_ H]]]. split; [apply H; exact Hn|].
+  assert (Hi : i < num_states a) by (rewrite <- Hl; apply nth_error_Some; congruence).
+  split; [exact Hi|]. unfold a_state. apply nth_error_nth. exact Hn.
+Qed.
+
+Lemma wf_target a u : aut_wf a -> u < num_states a ->
+  a_state_at a u = Some (a_state a u) /\ a_id (a_state a u) = u.
+Proof.
+  intros Hwf Hu. pose proof Hwf as [Hl _]. unfold a_state_at. split.
+  - apply a_state_nth. lia.
+  - destruct (aut_wf_state a u Hwf Hu) as [Hid _]. exact Hid.
+Qed.
+
+(* class_next on a class that has a member: defined, the id of the result is what next returns for
+   every character of the class *)
+Lemma class_next_defined a i s cid x : aut_wf a -> nth_error (astates a) i = Some s ->
+  good x -> in_class (a_classes s) x cid ->
+  exists t, a_class_next a s cid = Some t /\ a_id t < num_states a /\ a_state a (a_id t) = t /\
+            forall y, in_class (a_classes s) y cid -> a_next a s y = Some (a_id t).
+Proof.
+  intros Hwf Hn Hg Hin. destruct (wf_state_at a i s Hwf Hn) as [[_ [Hp [Hl [Ht Hd]]]] _].
+  pose proof (pwf_sorted _ Hp) as Hs.
+  assert (Hu : exists u, match cid with CInt j => nth_error (a_succ s) j | CComp => a_default s end = Some u /\
+                         u < num_states a).
+  { destruct cid as [j|].
+    - destruct Hin as [iv [Hiv _]]. apply nth_error_lt_len in Hiv. unfold plen in Hl.
+      destruct (nth_error (a_succ s) j) as [u|] eqn:Hu.
+      + exists u. split; auto. apply Ht. eapply nth_error_In; eauto.
+      + apply nth_error_None in Hu. lia.
+    - destruct (a_default s) as [d|]; [exists d; auto|].
+      exfalso. destruct Hin as [_ Hnc]. apply Hnc.
+      apply (proj1 (pempty_complement_iff _ Hp) Hd). exact Hg. }
+  destruct Hu as [u [Hu Hlt]]. destruct (wf_target a u Hwf Hlt) as [Hat Hid].
+  exists (a_state a u). unfold a_class_next. rewrite Hu. cbn [bind]. rewrite Hid.
+  split; [exact Hat|]. split; [exact Hlt|]. split; [reflexivity|].
+  intros y Hy. unfold a_next. rewrite (pclass_of_char_complete _ y cid Hs Hy).
+  destruct cid; exact Hu.
+Qed.
+
+(* char_set_next: never panics on a valid set; Ok(t) when the set lies inside one class, and then t
+   is next(s, x) for every character x of the set; Err(AmbiguousCharSet) exactly when no class
+   contains the set *)
+Theorem char_set_next_spec a i s set : aut_wf a -> nth_error (astates a) i = Some s -> cs_valid set ->
+  exists r, a_char_set_next a s set = Some r /\
+    (forall cid, (forall x, mem x set -> in_class (a_classes s) x cid) ->
+       exists t, r = Some t /\ a_class_next a s cid = Some t /\
+                 a_id t < num_states a /\ a_state a (a_id t) = t /\
+                 forall x, mem x set -> a_next a s x = Some (a_id t)) /\
+    (r = None <-> forall cid, ~ forall x, mem x set -> in_class (a_classes s) x cid).
+Proof.
+  intros Hwf Hn Hv. destruct (wf_state_at a i s Hwf Hn) as [[_ [Hp _]] _].
+  pose proof (pwf_sorted _ Hp) as Hs.
+  destruct (pclass_of_set_spec (a_classes s) set Hs Hv) as [r0 [Hr0 _]].
+  assert (Hm0 : mem (fst set) set) by (destruct Hv; unfold mem; lia).
+  assert (Hg0 : good (fst set)) by (destruct Hv; unfold good; lia).
+  unfold a_char_set_next. rewrite Hr0. cbn [bind]. destruct r0 as [cid0|].
+  - pose proof (proj1 (pclass_of_set_classes _ _ cid0 Hs Hv) Hr0) as Hall.
+    destruct (class_next_defined a i s cid0 (fst set) Hwf Hn Hg0 (Hall _ Hm0))
+      as [t [Hcn [Hlt [Hst Hnx]]]].
+    rewrite Hcn. cbn [bind]. eexists. split; [reflexivity|]. split.
+    + intros cid Hc. assert (cid = cid0).
+      { pose proof (proj2 (pclass_of_set_classes _ _ cid Hs Hv) Hc) as E. congruence. }
+      subst cid. exists t. split; [reflexivity|]. split; [exact Hcn|]. split; [exact Hlt|].
+      split; [exact Hst|]. intros x Hx. apply Hnx. apply Hall. exact Hx.
+    + split; [discriminate|]. intros H. exfalso. apply (H cid0). exact Hall.
+  - eexists. split; [reflexivity|]. split.
+    + intros cid Hc. pose proof (proj2 (pclass_of_set_classes _ _ cid Hs Hv) Hc) as E. congruence.
+    + split; auto. intros _ cid Hc.
+      pose proof (proj2 (pclass_of_set_classes _ _ cid Hs Hv) Hc) as E. congruence.
+Qed.
+
+(* in particular a set that meets two different classes is rejected *)
+Theorem char_set_next_two_classes a i s set x y : aut_wf a -> nth_error (astates a) i = Some s ->
+  cs_valid set -> mem x set -> mem y set -> ~ same_class (a_classes s) x y ->
+  a_char_set_next a s set = Some None.
+Proof.
+  intros Hwf Hn Hv Hx Hy Hns. destruct (char_set_next_spec a i s set Hwf Hn Hv) as [r [Hr [_ Hiff]]].
+  rewrite Hr. f_equal. apply Hiff. intros cid Hall. apply Hns.
+  assert (Hgx : good x) by (destruct Hv, Hx; unfold good; lia).
+  assert (Hgy : good y) by (destruct Hv, Hy; unfold good; lia).
+  apply same_class_iff_in_class; auto. exists cid. split; apply Hall; auto.
+Qed.
+
+(* a singleton set is a character: char_set_next(s, {c}) = next(s, c) *)
+Theorem char_set_next_singleton a i s c : aut_wf a -> nth_error (astates a) i = Some s -> good c ->
+  exists t, a_char_set_next a s (c, c) = Some (Some t) /\ a_next a s c = Some (a_id t).
+Proof.
+  intros Hwf Hn Hg. assert (Hv : cs_valid (c, c)) by (unfold cs_valid, good in *; cbn [fst snd]; lia).
+  destruct (char_set_next_spec a i s (c, c) Hwf Hn Hv) as [r [Hr [Hok _]]].
+  destruct (in_class_exists (a_classes s) c Hg) as [cid Hc].
+  destruct (Hok cid) as [t [-> [_ [_ [_ Hnx]]]]].
+  - intros x [H1 H2]. cbn [fst snd] in *. assert (x = c) by lia. subst x. exact Hc.
+  - exists t. split; [exact Hr|]. apply Hnx. unfold mem. cbn [fst snd]. lia.
+Qed.
+
+(* State accessors and Automaton::default_successor against next *)
+Theorem state_accessors_spec a i s : aut_wf a -> nth_error (astates a) i = Some s ->
+  s_num_successors s = length (a_succ s) /\ s_char_ranges s = ivs (a_classes s) /\
+  (s_has_default_successor s = true <-> exists d, s_default_successor s = Some d) /\
+  (exists r, a_default_successor a s = Some r /\
+     (forall d, s_default_successor s = Some d ->
+        r = Some (a_state a d) /\ d < num_states a /\ a_id (a_state a d) = d) /\
+     (s_default_successor s = None -> r = None)) /\
+  (forall c, good c -> exists b, s_char_maps_to_default s c = Some b /\
+     (b = true <-> (exists d, s_default_successor s = Some d) /\ in_class (a_classes s) c CComp) /\
+     (b = true -> a_next a s c = s_default_successor s) /\
+     (b = false -> exists j, in_class (a_classes s) c (CInt j) /\ a_next a s c = nth_error (a_succ s) j)).
+Proof.
+  intros Hwf Hn. destruct (wf_state_at a i s Hwf Hn) as [[_ [Hp [Hl [Ht Hd]]]] _].
+  pose proof (pwf_sorted _ Hp) as Hs.
+  split; [unfold s_num_successors; auto|]. split; [reflexivity|]. split.
+  { unfold s_has_default_successor, s_default_successor. destruct (a_default s).
+    - split; eauto.
+    - split; [discriminate|]. intros [d Hd']. discriminate. }
+  split.
+  { unfold a_default_successor, s_default_successor. destruct (a_default s) as [d|].
+    - destruct (wf_target a d Hwf Hd) as [Hat Hid]. rewrite Hat. cbn [bind].
+      eexists. split; [reflexivity|]. split; [|discriminate].
+      intros d' E. inv E. auto.
+    - eexists. split; [reflexivity|]. split; [discriminate|auto]. }
+  intros c Hg. unfold s_char_maps_to_default, s_has_default_successor, s_default_successor.
+  destruct (pclass_of_char_res (a_classes s) c Hs) as [cid [Hc Hr]].
+  pose proof (class_res_in_class _ _ _ Hg Hr) as Hin.
+  destruct (a_default s) as [d|] eqn:Hdef.
+  - rewrite Hc. cbn [bind]. eexists. split; [reflexivity|]. destruct cid as [j|]; cbn [classid_eqb].
+    + split; [|split].
+      * split; [discriminate|]. intros [_ Hcc]. pose proof (in_class_fun _ _ _ _ Hs Hin Hcc). discriminate.
+      * discriminate.
+      * intros _. exists j. split; auto. unfold a_next. rewrite Hc. reflexivity.
+    + split; [|split].
+      * split; eauto.
+      * intros _. unfold a_next. rewrite Hc. exact Hdef.
+      * discriminate.
+  - eexists. split; [reflexivity|]. split; [|split].
+    + split; [discriminate|]. intros [[d Hd'] _]. discriminate.
+    + discriminate.
+    + intros _. destruct cid as [j|].
+      * exists j. split; auto. unfold a_next. rewrite Hc. reflexivity.
+      * exfalso. destruct Hin as [_ Hnc]. apply Hnc.
+        apply (proj1 (pempty_complement_iff _ Hp) Hd). exact Hg.
+Qed.
+
+(* char_classes lists the valid class ids (= the non-empty classes), char_picks one member of each,
+   in the same order; class_next of a listed class is what next returns for its pick *)
+Theorem char_classes_picks_spec a i s : aut_wf a -> nth_error (astates a) i = Some s ->
+  s_char_classes s = map CInt (seq 0 (s_num_successors s)) ++
+                     (if s_valid_class_id s CComp then [CComp] else []) /\
+  NoDup (s_char_classes s) /\
+  (forall cid, In cid (s_char_classes s) <-> s_valid_class_id s cid = true) /\
+  (forall cid, s_valid_class_id s cid = true <-> exists x, good x /\ in_class (a_classes s) x cid) /\
+  Forall2 (fun cid x => good x /\ in_class (a_classes s) x cid /\ s_class_of_char s x = Some cid /\
+             exists t, a_class_next a s cid = Some t /\ a_next a s x = Some (a_id t) /\
+                       a_id t < num_states a /\ a_state a (a_id t) = t)
+          (s_char_classes s) (s_char_picks s).
+Proof.
+  intros Hwf Hn. destruct (wf_state_at a i s Hwf Hn) as [[_ [Hp _]] _].
+  pose proof (pwf_sorted _ Hp) as Hs.
+  unfold s_char_classes, s_valid_class_id, s_num_successors, s_char_picks, s_class_of_char.
+  split; [apply pclass_ids_shape|]. split; [apply pclass_ids_nodup|].
+  split; [intros cid; apply pclass_ids_in|]. split; [intros cid; apply pvalid_iff; exact Hp|].
+  pose proof (ppicks_in_class _ Hp) as HF.
+  eapply Forall2_weaken; [|exact HF]. intros cid x [Hg Hin].
+  split; [exact Hg|]. split; [exact Hin|]. split; [apply pclass_of_char_complete; auto|].
+  destruct (class_next_defined a i s cid x Hwf Hn Hg Hin) as [t [Hcn [Hlt [Hst Hnx]]]].
+  exists t. split; [exact Hcn|]. split; [apply Hnx; exact Hin|]. split; auto.
+Qed.
+
+(* valid_class_id(Complement) is "the complementary class is non-empty" (what the code computes),
+   not "a default successor is defined" (what the documentation of State::valid_class_id says); in a
+   well-formed automaton the first implies the second, and they coincide when no default is dead *)
+Theorem valid_complement_vs_default a i s : aut_wf a -> nth_error (astates a) i = Some s ->
+  (s_valid_class_id s CComp = true -> s_has_default_successor s = true) /\
+  (no_dead_default a -> (s_valid_class_id s CComp = true <-> s_has_default_successor s = true)) /\
+  (no_dead_default a ->
+     map (fun cid => option_map a_id (a_class_next a s cid)) (s_char_classes s) = map Some (edges s)).
+Proof.
+  intros Hwf Hn. destruct (wf_state_at a i s Hwf Hn) as [[_ [Hp [Hl [Ht Hd]]]] _].
+  unfold s_valid_class_id, s_has_default_successor. cbn [pvalid].
+  assert (H1 : negb (pempty_complement (a_classes s)) = true ->
+               match a_default s with Some _ => true | None => false end = true).
+  { destruct (a_default s); auto. rewrite Hd. discriminate. }
+  split; [exact H1|]. split.
+  - intros Hnd. split; [exact H1|]. destruct (a_default s) as [d|] eqn:Hdef; [|discriminate].
+    intros _. rewrite (Hnd i s d Hn Hdef). reflexivity.
+  - intros Hnd. unfold s_char_classes, pclass_ids, edges. rewrite !map_app. f_equal.
+    + rewrite map_map. unfold plen in *. rewrite <- Hl.
+      set (l := a_succ s) in *.
+      apply nth_error_ext_len; [rewrite !map_length, seq_length; reflexivity|].
+      intros k. rewrite !nth_error_map. destruct (nth_error l k) as [u|] eqn:Hu.
+      * assert (Hk : k < length l) by (apply nth_error_Some; congruence).
+        rewrite (nth_error_nth_lt (seq 0 (length l)) k 0) by (rewrite seq_length; exact Hk).
+        rewrite seq_nth by exact Hk. cbn [option_map Nat.add]. unfold a_class_next. fold l. rewrite Hu. cbn [bind].
+        destruct (wf_target a u Hwf (Ht u (nth_error_In _ _ Hu))) as [Hat Hid]. rewrite Hat.
+        cbn [option_map]. rewrite Hid. reflexivity.
+      * assert (Hk : length l <= k) by (apply nth_error_None; exact Hu).
+        replace (nth_error (seq 0 (length l)) k) with (@None nat); [reflexivity|].
+        symmetry. apply nth_error_None. rewrite seq_length. exact Hk.
+    + destruct (a_default s) as [d|] eqn:Hdef.
+      * rewrite (Hnd i s d Hn Hdef). cbn [map]. unfold a_class_next. rewrite Hdef. cbn [bind].
+        destruct (wf_target a d Hwf Hd) as [Hat Hid]. rewrite Hat. cbn [option_map]. rewrite Hid. reflexivity.
+      * rewrite Hd. reflexivity.
+Qed.
+
+(* the documentation of State::valid_class_id ("Complement is valid if there's a default successor")
+   does not hold for the automata build_unchecked accepts: state 0 of dd_aut has a default successor
+   and an empty complementary class *)
+Theorem valid_class_id_doc_refuted :
+  aut_wf dd_aut /\ s_has_default_successor (a_state dd_aut 0) = true /\
+  s_valid_class_id (a_state dd_aut 0) CComp = false /\
+  s_char_classes (a_state dd_aut 0) = [CInt 0] /\ edges (a_state dd_aut 0) = [0; 1].
+Proof. split; [apply aut_wfb_iff; vm_compute; reflexivity|]. vm_compute. repeat split. Qed.
+
+(* initial_state, state, states, num_states, num_final_states, final_states *)
+Theorem automaton_accessors_spec a : aut_wf a ->
+  a_initial_state a = Some (a_state a (initial a)) /\ a_id (a_state a (initial a)) = initial a /\
+  (forall k, k < a_num_states a -> a_state_at a k = Some (a_state a k) /\ a_id (a_state a k) = k) /\
+  (forall k, a_num_states a <= k -> a_state_at a k = None) /\
+  map a_id (a_states a) = seq 0 (a_num_states a) /\
+  length (a_final_states a) = a_num_final_states a /\
+  (forall t, In t (a_final_states a) <-> In t (a_states a) /\ a_final t = true) /\
+  map a_id (a_final_states a) = filter (fun k => a_final (a_state a k)) (seq 0 (a_num_states a)).
+Proof.
+  intros Hwf. pose proof Hwf as [Hl [Hi [Hf Hst]]].
+  unfold a_initial_state, a_num_states, a_states, a_final_states, a_num_final_states.
+  split; [apply (wf_target a _ Hwf Hi)|]. split; [apply (wf_target a _ Hwf Hi)|].
+  split; [intros k Hk; apply (wf_target a k Hwf Hk)|].
+  split; [intros k Hk; unfold a_state_at; apply nth_error_None; lia|].
+  assert (Hids : map a_id (astates a) = seq 0 (num_states a)).
+  { apply nth_error_ext_len; [rewrite map_length, seq_length; exact Hl|].
+    intros k. rewrite nth_error_map. destruct (nth_error (astates a) k) as [t|] eqn:Ht.
+    - destruct (wf_state_at a k t Hwf Ht) as [[Hid _] [Hk _]]. cbn [option_map]. rewrite Hid.
+      symmetry. rewrite (nth_error_nth_lt (seq 0 (num_states a)) k 0) by (rewrite seq_length; exact Hk).
+      rewrite seq_nth by exact Hk. reflexivity.
+    - symmetry. apply nth_error_None. rewrite seq_length, <- Hl. apply nth_error_None. exact Ht. }
+  split; [exact Hids|]. split; [exact Hf|]. split; [intros t; apply filter_In|].
+  rewrite <- Hids, filter_map_comm. f_equal. apply filter_ext_in. intros t Ht.
+  apply In_nth_error in Ht. destruct Ht as [k Hk].
+  destruct (wf_state_at a k t Hwf Hk) as [[Hid _] [_ Hst']]. rewrite Hid, Hst'. reflexivity.
+Qed.
